@@ -175,4 +175,17 @@ def minLevelForRefresh (lambda scale nParties : Nat) (moduli : List Nat) : Optio
   | none => none
   | some k => some ((k : Int) - 1, logBound)
 
+/-- The centred-mask no-wrap condition at the level returned by `GetMinimumLevelForRefresh`:
+    every mask lies in `[−2^(logBound−1), 2^(logBound−1))`, the plaintext coefficients are below `2^msgBits`;
+    the masked plaintext `m − Σ M_i` is recovered without wrapping modulo `Q_minLevel` as soon as
+    `2·(n·2^(logBound−1) + 2^msgBits) < Q_minLevel`.  (The minimum level only guarantees
+    `n·2^logBound ≤ Q_minLevel`: the room for the message comes from the slack `Q_minLevel − n·2^logBound`.) -/
+def noWrapAtMinLevel (lambda scale nParties : Nat) (moduli : List Nat) (msgBits : Nat) :
+    Option (Int × Nat × Bool) :=
+  match minLevelForRefresh lambda scale nParties moduli with
+  | none => none
+  | some (ml, lb) =>
+    let q := (moduli.take (ml + 1).toNat).foldl (· * ·) 1
+    some (ml, lb, decide (2 * (nParties * 2 ^ (lb - 1) + 2 ^ msgBits) < q))
+
 end Lattigo.MP
